@@ -217,13 +217,26 @@ def postorder(repo, res, rule="TOPO"):
         res.undecided(rule, f"{rule}:check::traverse_nonterminal_dependencies_dfs", "function not found")
         return
     n = 0
-    for fn in (f, g):
+    # a start-up helper extracted from the seeding loops (push the root on the path, run the DFS, append the root) is read like
+    # the loops it came from: wrappers = functions of the module, other than the two, that call the DFS
+    wrappers = [w for w in repo.fns_in("check") if w is not f and w is not g and list(P.find_calls(w.body, names={f.name}))]
+    ridx = next((i for i, prm in enumerate(f.params) if "Vec<Ustr>" in "".join((prm.get("ty") or "").split())), None)
+    for fn in [f, g] + wrappers:
         pm = A.parent_map(fn.body)
         calls = list(P.find_calls(fn.body, names={f.name}))
         if not calls:
+            via = [w for w in wrappers if list(P.find_calls(fn.body, names={w.name}))]
+            if via:
+                n += 1
+                res.ok(rule, f"{rule}:{fn.qname}:via-helper", f"the traversal is started through {[w.qname for w in via]}, checked as a start-up site of its own", fn.loc())
+                continue
             res.undecided(rule, f"{rule}:{fn.qname}", f"no call of {f.name}")
             continue
         for i, c in enumerate(calls):
+            # the result vector is whatever this call passes for the DFS's `&mut Vec<Ustr>` parameter
+            rname = "result"
+            if ridx is not None and ridx < len(c["args"]):
+                rname = "".join(repo.text(fn.file, c["args"][ridx]).split()).replace("&mut", "").lstrip("*&")
             # the pushes onto the result vector in the same block as this call
             blk = None
             cur = A.stmt_of(c, pm)
@@ -236,7 +249,7 @@ def postorder(repo, res, rule="TOPO"):
                         r = m["recv"]
                         while r["k"] in ("Ref", "Unary"):
                             r = r["expr"]
-                        if r["k"] == "Path" and r["path"] == "result":
+                        if r["k"] == "Path" and r["path"] == rname:
                             pushes.append(m)
             n += 1
             ok = len(pushes) == 1 and A.before(c, pushes[0])
